@@ -547,4 +547,124 @@ theorem gen_trace_instance :
 
 end BisectionGen
 
+section Audit
+/-! ## AUDIT (g27): vacuity / scope checks and instances added by the reviewer; no existing declaration changed -/
+
+/-- AUDIT helper: a `while_loop` with fuel `n` that returns has advanced the adaptation counter by at most `n`. -/
+theorem audit_whileFuel_iter_le (f : ℝ → ℝ) : ∀ (n : ℕ) (s s' : AdaptState ℝ),
+    whileFuel adaptCond (adaptBody f 2) n s = some s' → s'.iteration ≤ s.iteration + n := by
+  intro n
+  induction n with
+  | zero =>
+    intro s s' h
+    simp only [whileFuel] at h
+    split at h
+    · simp at h
+    · simp only [Option.some.injEq] at h; subst h; simp
+  | succ n ih =>
+    intro s s' h
+    simp only [whileFuel] at h
+    split at h
+    · have := ih _ _ h
+      have hb : (adaptBody f 2 s).iteration = s.iteration + 1 := by
+        by_cases h1 : s.lower_fn_sign = 1
+        · rw [(adapt_step f s).1 h1]
+        · rw [(adapt_step f s).2 h1]
+      rw [hb] at this
+      push_cast; omega
+    · simp only [Option.some.injEq] at h; subst h; push_cast; omega
+
+/-- AUDIT (VACUITY of `gen_autoregressive_exact`): its hypothesis `hsolve` — "the generated `_bisection_search` with THESE
+`lower < upper`, `tol`, `max_iter`, `fuel` returns the exact root of every strictly increasing function that has one" — is FALSE for
+every choice of the parameters: the root `upper + (upper − lower)·2^(fuel+1)` needs `fuel + 2 > fuel` adaptation steps, so the
+search runs out of fuel on `x ↦ x − root`.  Hence `gen_autoregressive_exact` (with `lower < upper`) has an unsatisfiable hypothesis set. -/
+theorem gen_autoregressive_exact_hsolve_false {lower upper : ℝ} (h : lower < upper) (tol : ℝ) (max_iter : Int) (fuel : ℕ)
+    (hsolve : ∀ (g : ℝ → ℝ) (r : ℝ), StrictMono g → g r = 0 →
+      ∃ ai it, GenBis.bisectionSearch fuel g lower upper tol max_iter = Bw.Res.ok (r, ai, it)) : False := by
+  set r : ℝ := upper + (upper - lower) * 2 ^ (fuel + 1) with hr
+  have hw : 0 < upper - lower := by linarith
+  have hg : StrictMono (fun x : ℝ => x - r) := fun a b hab => by simp only; linarith
+  obtain ⟨ai, it, e⟩ := hsolve (fun x => x - r) r hg (by simp)
+  rw [gen_bisection_search_eq_model] at e
+  split at e
+  · rw [BisectionGen.ofOption_eq_ok] at e
+    unfold bisectionSearch at e
+    split at e
+    · simp at e
+    · rename_i lo hi ai' ea
+      have hit := adapt_iterations_exact (fun x => x - r) hg r (by simp) h fuel lo hi ai' ea
+      -- the counter is bounded by the fuel
+      unfold adaptInterval at ea
+      obtain ⟨s', hs', hx⟩ := Option.map_eq_some_iff.mp ea
+      have hle := audit_whileFuel_iter_le (fun x => x - r) fuel _ s' hs'
+      have hai : ai' = s'.iteration := by
+        have := congrArg (fun p => p.2.2) hx; simpa [adaptExit] using this.symm
+      have h0 : (adaptInit (fun x => x - r) lower upper).iteration = 0 := rfl
+      rw [h0] at hle
+      -- but the exact count is clog 2 (2^(fuel+1) + 1) = fuel + 2
+      have hmax : max (lower - r) (r - upper) / (upper - lower) = 2 ^ (fuel + 1) := by
+        have h1 : r - upper = (upper - lower) * 2 ^ (fuel + 1) := by rw [hr]; ring
+        have hp : (0 : ℝ) < 2 ^ (fuel + 1) := by positivity
+        have h2 : lower - r ≤ r - upper := by rw [h1, hr]; nlinarith [mul_pos hw hp]
+        rw [max_eq_right h2, h1]; field_simp
+      have hceil : ⌈max (lower - r) (r - upper) / (upper - lower)⌉₊ = 2 ^ (fuel + 1) := by
+        rw [hmax]; exact_mod_cast Nat.ceil_natCast (2 ^ (fuel + 1))
+      rw [hceil] at hit
+      have hclog : fuel + 1 < Nat.clog 2 (2 ^ (fuel + 1) + 1) := by
+        apply (Nat.lt_clog_iff_pow_lt (by norm_num)).mpr
+        omega
+      rw [hai] at hit
+      rw [hit] at hle
+      have : (Nat.clog 2 (2 ^ (fuel + 1) + 1) : Int) ≤ fuel := by simpa using hle
+      omega
+  · simp at e
+
+
+/-- AUDIT: the library DEFAULTS (`lower, upper = -10, 10`, `tol = 1e-7`, `max_iter = 200`) do reach the requested tolerance for every
+strictly increasing `f` whose root is anywhere within `10⁶` of the origin (the property's "1e6 away on either side"): `search_tol`'s
+side condition `W / 2^(max_iter+1) ≤ tol` holds, and fuel 200 covers the ≤ 16 adaptation steps. -/
+theorem search_tol_defaults_audit (f : ℝ → ℝ) (hf : StrictMono f) (r : ℝ) (hr : f r = 0) (hbox : |r| ≤ 1000000)
+    (fuel : ℕ) (hfuel : 200 ≤ fuel) :
+    ∃ root ai it, bisectionSearch f (-10) 10 (1 / 10000000) 200 fuel = some (root, ai, it) ∧ |root - r| ≤ 1 / 10000000 := by
+  obtain ⟨h1, h2⟩ := abs_le.mp hbox
+  have hm : max ((-10 : ℝ) - r) (r - 10) ≤ 1000000 := max_le (by linarith) (by linarith)
+  have hclog : Nat.clog 2 (⌈max ((-10 : ℝ) - r) (r - 10) / (10 - -10)⌉₊ + 1) ≤ 16 := by
+    apply Nat.clog_le_of_le_pow
+    have : ⌈max ((-10 : ℝ) - r) (r - 10) / (10 - -10)⌉₊ ≤ 50000 := by
+      rw [Nat.ceil_le]
+      have : max ((-10 : ℝ) - r) (r - 10) / (10 - -10) ≤ 1000000 / 20 := by
+        rw [show ((10 : ℝ) - -10) = 20 by norm_num]; exact div_le_div_of_nonneg_right hm (by norm_num)
+      norm_num at this ⊢; linarith
+    omega
+  apply search_tol f hf r hr (by norm_num : (-10 : ℝ) < 10) (1 / 10000000) 200
+    (by rw [Bisection.searchArgsOk_iff]; norm_num) _ fuel (le_trans hclog (by omega)) (by simpa using hfuel)
+  have hp : (0 : ℝ) < 2 ^ ((200 : Int).toNat + 1) := by positivity
+  rw [div_le_iff₀ hp]
+  have h2 : (2 : ℝ) ^ 50 ≤ 2 ^ ((200 : Int).toNat + 1) := pow_le_pow_right₀ (by norm_num) (by simp)
+  have h3 : max (0 : ℝ) (max ((-10 : ℝ) - r) (r - 10)) ≤ 1000000 := max_le (by norm_num) hm
+  norm_num at h2 ⊢
+  nlinarith
+
+/-- AUDIT (scope of "any continuous strictly increasing function"): every theorem of this file ASSUMES a root `f r = 0`.  Without one
+the adaptation loop of the model never returns, whatever the fuel: for an everywhere-positive `f` (e.g. `exp`) both cached signs stay
+`+1`, so `cond_fn` stays true.  The property's "terminates" is therefore only established for functions that have a root. -/
+theorem adapt_never_returns_without_root_audit (f : ℝ → ℝ) (hpos : ∀ x, 0 < f x) (lower upper : ℝ) (fuel : ℕ) :
+    adaptInterval f lower upper fuel = none := by
+  have key : ∀ (n : ℕ) (s : AdaptState ℝ), s.lower_fn_sign = 1 → s.upper_fn_sign = 1 →
+      whileFuel adaptCond (adaptBody f 2) n s = none := by
+    intro n
+    induction n with
+    | zero => intro s h1 h2; simp [whileFuel, adaptCond, h1, h2]
+    | succ n ih =>
+      intro s h1 h2
+      have hc : adaptCond s = true := by simp [adaptCond, h1, h2]
+      simp only [whileFuel, hc, if_true]
+      apply ih
+      · rw [(adapt_step f s).1 h1]; exact RealInst.jsign_pos (hpos _)
+      · rw [(adapt_step f s).1 h1]; exact RealInst.jsign_pos (hpos _)
+  unfold adaptInterval
+  rw [key fuel _ (by simp [adaptInit]; exact RealInst.jsign_pos (hpos _)) (by simp [adaptInit]; exact RealInst.jsign_pos (hpos _))]
+  rfl
+end Audit
+
 end C10
